@@ -378,10 +378,11 @@ def parse_contracts(path):
                 cur.ghosts.append(g)
                 mode = "ghost"
                 continue
-            m = re.match(r"closure\s+(\d+)\s*:\s*(.*)$", s)
+            m = re.match(r"closure\s+((?:\w+(?:,\w+)*|\(\))#\d+|\d+)\s*:\s*(.*)$", s)
             if m:
                 d = {"header": m.group(2).strip(), "clauses": []}
-                cur.closures[int(m.group(1))] = d
+                key = m.group(1)
+                cur.closures[int(key) if key.isdigit() else key] = d
                 target = d["clauses"]
                 continue
             m = re.match(r"loop\s+(\d+)\s*:\s*(.*)$", s)
@@ -741,9 +742,23 @@ def _annotate_body(em, fid, body, c, indent):
     loops = find_loops(body)
     cl_ann = c.closures if c is not None else {}
     lp_ann = c.loops if c is not None else {}
-    for k in cl_ann:
-        if k >= len(closures):
-            raise ExtractError(f"{fid}: contract annotates closure #{k} but the body has {len(closures)} (lost anchor)")
+    # closures may be keyed by ordinal (`closure 2:`) or by bound names (`closure b#1:` = second closure binding exactly `b`)
+    resolved = {}
+    for k in list(cl_ann.keys()):
+        if isinstance(k, int):
+            if k >= len(closures):
+                raise ExtractError(f"{fid}: contract annotates closure #{k} but the body has {len(closures)} (lost anchor)")
+            resolved[k] = cl_ann[k]
+        else:
+            names, ordn = k.split("#")
+            want = [] if names == "()" else names.split(",")
+            hits = [ci for ci, (hs, he, bs, be, ib) in enumerate(closures)
+                    if (_closure_param_names(body[hs + 1:he - 1]) if body[hs].text == "|" else []) == want]
+            if int(ordn) >= len(hits):
+                raise ExtractError(f"{fid}: contract annotates closure `{k}` but the body has {len(hits)} closures binding {want} (lost anchor)")
+            cl_ann[k]["label"] = "_" + k.replace(",", "_").replace("#", "").replace("()", "unit")
+            resolved[hits[int(ordn)]] = cl_ann[k]
+    cl_ann = resolved
     for k in lp_ann:
         if k >= len(loops):
             raise ExtractError(f"{fid}: contract annotates loop #{k} but the body has {len(loops)} (lost anchor)")
@@ -852,7 +867,7 @@ def _annotate_body(em, fid, body, c, indent):
             elif kind == "closure_open":
                 k, d, orig, is_block = payload
                 em.w(f"{A_OPEN[:-2]}C {orig} */{d['header']}\n")
-                _emit_clauses_inner(em, fid, f"closure{k}", d["clauses"], indent + "            ")
+                _emit_clauses_inner(em, fid, "closure" + d.get("label", str(k)), d["clauses"], indent + "            ")
                 if is_block:
                     em.w(f"{indent}        {A_CLOSE}")
                 else:
